@@ -363,6 +363,17 @@ pub fn alphabet(name: &str) -> Vec<Op> {
             Op::Add(lam(100, q4(0, 1, 2, 100))),
             Op::Add(u(q4(0, 1, 2, 3))),
         ],
+        "LETS" => vec![
+            // let terms for the rule (let $x ?b ?e) => ?b[(var $x) := ?e] (C07: a rule leaf in the substitution form), and
+            // unions that give the contractum or one of its sub-terms another representative beforehand
+            Op::Add(let_(100, u(var(100)), h(0))),
+            Op::Add(let_(100, b(var(100), var(100)), f(0, 1))),
+            Op::Add(let_(100, lam(101, b(var(100), var(101))), var(0))),
+            Op::Union(u(h(0)), cc()),
+            Op::Union(h(0), var(0)),
+            Op::Union(f(0, 1), f(1, 0)),
+            Op::Add(u(h(0))),
+        ],
         "PAY" => {
             // operators with a payload: two payload leaves, the payload-plus-child operator under two payloads, and unions
             // that make nodes with DIFFERENT payloads members of one class / parents of one class
